@@ -27,7 +27,8 @@ Inductive ext_result := Ext_ok (thisbytes : N) (bonus : nat) | Ext_einval | Ext_
 Inductive qq_outcome :=
 | QQ_ok                              (* reads everything, exits 0 *)
 | QQ_exit (code : nat)               (* reads everything, exits with a non-zero code *)
-| QQ_die_write                       (* dies before everything was written: a write fails (EPIPE) *)
+| QQ_die_write                       (* dies before the envelope was written completely: the envelope write or waitpid shows it *)
+| QQ_die_early                       (* is dead before the first data line is written: that write fails with EPIPE *)
 | QQ_signal.                         (* reads everything, killed by a signal *)
 
 Record oracles := {
@@ -165,6 +166,7 @@ Inductive dend :=
 | D_toobig (linein : bytes) (seen : list bytes)           (* msgsize > maxbytes: drain, EMSGSIZE *)
 | D_loop (linein : bytes) (seen : list bytes)             (* too many hops: drain, 554 *)
 | D_readerr (e2big : bool) (linein : bytes)    (* net_read failed: drain, 500 / E2BIG; linein keeps the previous line *)
+| D_wfail (linein : bytes)                     (* a write to qmail-queue failed (EPIPE): err_write *)
 | D_dead | D_stuck.
 
 (** [seen] is a ghost: the data lines written to the queue so far, oldest first; it does not
@@ -185,23 +187,24 @@ Definition dfinal (o : oracles) (l msg : bytes) (msgsize : N) (seen : list bytes
   if N.ltb (maxbytes o) msgsize then D_toobig l seen else D_eod msg msgsize seen.
 
 (** the body loop: [l] is the line in linein *)
-Fixpoint body_loop (fuel : nat) (o : oracles) (r : rstate) (l msg : bytes) (msgsize : N) (seen : list bytes)
+Fixpoint body_loop (fuel : nat) (o : oracles) (wfail : bool) (r : rstate) (l msg : bytes) (msgsize : N) (seen : list bytes)
   : dend * rstate :=
   match fuel with
   | O => (D_stuck, r)
   | S f =>
       if is_dot l || N.ltb (maxbytes o) msgsize then (dfinal o l msg msgsize seen, r)
+      else if wfail then (D_wfail l, r)
       else
         let msg' := msg ++ unstuff l ++ [LF] in
         let sz' := (msgsize + N.of_nat (length (unstuff l)) + 2)%N in
         match dread r l with
         | (inl d, r') => (d, r')
-        | (inr l', r') => body_loop f o r' l' msg' sz' (seen ++ [l])
+        | (inr l', r') => body_loop f o wfail r' l' msg' sz' (seen ++ [l])
         end
   end.
 
 (** the header loop, then the empty line and the body *)
-Fixpoint hdr_loop (fuel : nat) (o : oracles) (r : rstate) (l msg : bytes) (msgsize : N) (hops : nat) (seen : list bytes)
+Fixpoint hdr_loop (fuel : nat) (o : oracles) (wfail : bool) (r : rstate) (l msg : bytes) (msgsize : N) (hops : nat) (seen : list bytes)
   : dend * rstate :=
   match fuel with
   | O => (D_stuck, r)
@@ -210,9 +213,10 @@ Fixpoint hdr_loop (fuel : nat) (o : oracles) (r : rstate) (l msg : bytes) (msgsi
         match l with
         | [] =>
             (* "\n" is written, msgsize += 2, next line, body loop *)
+            if wfail then (D_wfail l, r) else
             match dread r l with
             | (inl d, r') => (d, r')
-            | (inr l', r') => body_loop f o r' l' (msg ++ [LF]) (msgsize + 2)%N (seen ++ [l])
+            | (inr l', r') => body_loop f o wfail r' l' (msg ++ [LF]) (msgsize + 2)%N (seen ++ [l])
             end
         | _ => (dfinal o l msg msgsize seen, r)
         end
@@ -220,19 +224,20 @@ Fixpoint hdr_loop (fuel : nat) (o : oracles) (r : rstate) (l msg : bytes) (msgsi
         let rcv := negb (N.eqb (nth 0 l 0%N) DOT) && is_received l in
         let hops' := if rcv then S hops else hops in
         if rcv && Nat.ltb MAXHOPS hops' then (D_loop l seen, r)
+        else if wfail then (D_wfail l, r)
         else
           let msg' := msg ++ unstuff l ++ [LF] in
           let sz' := (msgsize + N.of_nat (length (unstuff l)) + 2)%N in
           match dread r l with
           | (inl d, r') => (d, r')
-          | (inr l', r') => hdr_loop f o r' l' msg' sz' hops' (seen ++ [l])
+          | (inr l', r') => hdr_loop f o wfail r' l' msg' sz' hops' (seen ++ [l])
           end
   end.
 
-Definition data_loop (fuel : nat) (o : oracles) (r : rstate) (trace : bytes) : dend * rstate :=
+Definition data_loop (fuel : nat) (o : oracles) (wfail : bool) (r : rstate) (trace : bytes) : dend * rstate :=
   match dread r [] with
   | (inl d, r') => (d, r')
-  | (inr l, r') => hdr_loop fuel o r' l trace 0%N 0 []
+  | (inr l, r') => hdr_loop fuel o wfail r' l trace 0%N 0 []
   end.
 
 (** eat everything up to the line with the single dot (loop_data / err_write); [prev_dot]: linein already is "." *)
@@ -246,6 +251,20 @@ Fixpoint drain (fuel : nat) (r : rstate) (lastline : bytes) : bool * rstate :=
       | Dead | Stuck => (false, r')
       | Line l => drain f r' l
       | _ => drain f r' lastline          (* linein keeps the previous line after a read error *)
+      end
+  end.
+
+(** the drain loop of err_write: it stops at the first read error (second component: stopped by an error) *)
+Fixpoint drain_break (fuel : nat) (r : rstate) (lastline : bytes) : bool * bool * rstate :=
+  if is_dot lastline then (true, false, r) else
+  match fuel with
+  | O => (false, false, r)
+  | S f =>
+      let '(it, r') := net_read r in
+      match it with
+      | Dead | Stuck => (false, false, r')
+      | Line l => drain_break f r' l
+      | _ => (true, true, r')
       end
   end.
 
@@ -357,7 +376,8 @@ Definition h_data (fuel : nat) (o : oracles) (s : sstate) : list event * hres * 
                     relayclient := relayclient s; thisbytes := thisbytes s; qcount := S k |} in
         let first := match rcpts s with (a, _) :: _ => a | [] => [] end in
         let trace := o_trace o (helostr s) (mailfrom s) (esmtp s) first (relayclient s) in
-        let '(de, r') := data_loop fuel o (rd s) trace in
+        let wfail := match o_qq o k with QQ_die_early => true | _ => false end in
+        let '(de, r') := data_loop fuel o wfail (rd s) trace in
         let s' := set_rd s r' in
         match de with
         | D_dead => ([Note (NData k); Reply 354], HEXIT, s')
@@ -372,8 +392,13 @@ Definition h_data (fuel : nat) (o : oracles) (s : sstate) : list event * hres * 
                 if Nat.leb QQ_PERM_LO c && Nat.leb c QQ_PERM_HI then ([Note (NData k); Reply 354; Note NBoundary; Reply 554], HEDONE, sf)
                 else ([Note (NData k); Reply 354; Note NBoundary; Reply 451], HEDONE, sf)
             | QQ_signal => ([Note (NData k); Reply 354; Note NBoundary; Reply 451], HEDONE, sf)
-            | QQ_die_write => ([Note (NData k); Reply 354; Note NBoundary; Reply 451], HEDONE, sf)
+            | QQ_die_write | QQ_die_early => ([Note (NData k); Reply 354; Note NBoundary; Reply 451], HEDONE, sf)
             end
+        | D_wfail l =>
+            (* err_write: the transaction is dropped, the rest of the data is read up to the dot or to the first read error, 451 *)
+            let '(alive, _, r2) := drain_break fuel r' l in
+            if negb alive then ([Note (NData k); Reply 354], HEXIT, set_rd s' r2)
+            else ([Note (NData k); Reply 354; Note NBoundary; Reply 451], HEDONE, freedata (set_rd s' r2))
         | D_toobig l _ =>
             let '(alive, r2) := drain fuel r' l in
             if alive then ([Note (NData k); Reply 354; Note NBoundary], HEMSGSIZE, freedata (set_rd s' r2)) else ([Note (NData k); Reply 354], HEXIT, set_rd s' r2)
